@@ -115,6 +115,8 @@ static void verif_trace (const char * fmt, ...);
 static vbi_capture * verif_capture_new (const char * p_dev_name);
 static void verif_trace_state (const char * p_event, int fd);
 static void verif_trace_rcv (int fd, const VBIPROXY_MSG * p_msg);
+static void verif_trace_idle (int max_fd, fd_set * rd, fd_set * wr);
+static void verif_trace_wake (vbi_bool before);
 #  define VERIF_TRACE(args...) verif_trace(args)
 #  define VERIF_STATE(ev, fd) verif_trace_state(ev, fd)
 #  define VERIF_RCV(fd, msg) verif_trace_rcv(fd, msg)
@@ -826,7 +828,13 @@ static void * vbi_proxyd_acq_thread( void * pvoid_arg )
       vbi_proxyd_forward_data(dev_idx);
 
       /* wake up the master thread to process client queues */
+#ifdef ZVBI_VERIF
+      verif_trace_wake(TRUE);
+#endif
       ret = write(p_proxy_dev->wr_fd, byte_buf, 1);
+#ifdef ZVBI_VERIF
+      verif_trace_wake(FALSE);
+#endif
 
       if ((ret < 0) && (errno != EAGAIN))
       {
@@ -851,6 +859,73 @@ static void * vbi_proxyd_acq_thread( void * pvoid_arg )
 ** assigned and the line is written under one (leaf) mutex, so that the order of the lines
 ** is the order of the traced actions */
 static pthread_mutex_t verif_trace_mutex = PTHREAD_MUTEX_INITIALIZER;
+
+/* writing the trace line is a cancellation point: the acquisition thread must not be
+** cancelled while it holds the trace mutex (and the queue and client mutexes of its caller) */
+static void verif_trace_enter( int * p_cancel_state )
+{
+   pthread_setcancelstate(PTHREAD_CANCEL_DISABLE, p_cancel_state);
+   pthread_mutex_lock(&verif_trace_mutex);
+}
+
+static void verif_trace_leave( int cancel_state )
+{
+   pthread_mutex_unlock(&verif_trace_mutex);
+   pthread_setcancelstate(cancel_state, NULL);
+}
+
+static void verif_trace_locked( const char * fmt, va_list ap );
+static void verif_trace_locked_fmt( const char * fmt, ... )
+{
+   va_list ap;
+   va_start(ap, fmt);
+   verif_trace_locked(fmt, ap);
+   va_end(ap);
+}
+
+/* ----------------------------------------------------------------------------
+** Verification hook: quiescence
+** - "idle": the main loop is about to block in select() and nothing is ready; the
+**   connections with a blocked write are listed
+** - "wake": the acquisition thread has woken up the main loop
+** - both the check and the wake-up are done under the trace mutex, so that an "idle"
+**   line after a "wake" line means that the wake-up has been processed
+*/
+static void verif_trace_idle( int max_fd, fd_set * rd, fd_set * wr )
+{
+   fd_set rd2 = *rd, wr2 = *wr;
+   struct timeval tv;
+   PROXY_CLNT * req;
+   char buf[600];
+   int cancel_state;
+   int n = 0;
+
+   verif_trace_enter(&cancel_state);
+   tv.tv_sec = 0;
+   tv.tv_usec = 0;
+   if (select(((max_fd > 0) ? (max_fd + 1) : 0), &rd2, &wr2, NULL, &tv) == 0)
+   {
+      buf[0] = 0;
+      for (req = proxy.p_clnts; (req != NULL) && (n < 500); req = req->p_next)
+         if (FD_ISSET(req->io.sock_fd, wr))
+            n += snprintf(buf + n, sizeof(buf) - n, "%s%d", (n > 0) ? "," : "", req->io.sock_fd);
+      verif_trace_locked_fmt("\"e\":\"idle\",\"w\":[%s],\"n\":%d", buf, proxy.clnt_count);
+   }
+   verif_trace_leave(cancel_state);
+}
+
+static void verif_trace_wake( vbi_bool before )
+{
+   static int cancel_state;
+
+   if (before)
+      verif_trace_enter(&cancel_state);
+   else
+   {
+      verif_trace_locked_fmt("\"e\":\"wake\"");
+      verif_trace_leave(cancel_state);
+   }
+}
 
 static void verif_trace_locked( const char * fmt, va_list ap )
 {
@@ -880,12 +955,13 @@ static void verif_trace_locked( const char * fmt, va_list ap )
 static void verif_trace( const char * fmt, ... )
 {
    va_list ap;
+   int cancel_state;
 
-   pthread_mutex_lock(&verif_trace_mutex);
+   verif_trace_enter(&cancel_state);
    va_start(ap, fmt);
    verif_trace_locked(fmt, ap);
    va_end(ap);
-   pthread_mutex_unlock(&verif_trace_mutex);
+   verif_trace_leave(cancel_state);
 }
 
 /* ----------------------------------------------------------------------------
@@ -3131,6 +3207,9 @@ static void vbi_proxyd_main_loop( void )
       FD_ZERO(&wr);
       max_fd = vbi_proxyd_get_fd_set(&rd, &wr);
 
+#ifdef ZVBI_VERIF
+      verif_trace_idle(max_fd, &rd, &wr);
+#endif
       /* wait for new clients, client messages or VBI device data (indefinitly) */
       sel_cnt = select(((max_fd > 0) ? (max_fd + 1) : 0), &rd, &wr, NULL, NULL);
 
